@@ -3,6 +3,7 @@ import ast
 
 from ..core import astutil as A
 from ..core import boolx
+from ..core import match as M
 from ..core.cfg import cfg_of
 from ..core.model import dotted
 
@@ -12,6 +13,32 @@ META = {
     "note": "restriction.match is opaque; over-approximating candidates is always allowed because of R1",
 }
 MOD = "pkgcore.repository.prototype"
+
+
+def _noise(st):
+    """`pass` or an expression statement that is not a yield (a logging call, a bare constant): carries no control flow"""
+    return isinstance(st, ast.Pass) or (isinstance(st, ast.Expr) and not isinstance(st.value, (ast.Yield, ast.YieldFrom, ast.Await)))
+
+
+def _always_returns(body):
+    """every path through this statement list ends in `return` (only if/return/no-op statements allowed)"""
+    eff = [s for s in body if not _noise(s)]
+    if not eff or not all(isinstance(s, (ast.If, ast.Return)) for s in eff):
+        return False
+    last = eff[-1]
+    if isinstance(last, ast.Return):
+        return True
+    return bool(last.orelse) and _always_returns(last.body) and _always_returns(last.orelse)
+
+
+def _conjuncts(test):
+    if isinstance(test, ast.BoolOp) and isinstance(test.op, ast.And):
+        return [c for v in test.values for c in _conjuncts(v)]
+    return [test]
+
+
+def _in_body(if_node, node):
+    return any(A.contains_node(s, node) for s in if_node.body)
 
 
 def run(ctx):
@@ -28,11 +55,13 @@ def run(ctx):
         ok = bool(guard) and A.unparse(guard[0].test) == f"{mf}({v})" and any(A.contains_node(s, y) for s in guard[0].body)
         ctx.check("R1", im, ok, f"yield-guarded:{v}", f"`yield {v}` happens only under `{mf}({v})`", f"_internal_match yields `{v}` without the caller's match function having accepted it", node=y)
     it = P.func(MOD, "tree.itermatch")
-    binds = {A.unparse(v) for t, v, _ in A.assignments(it.node, "match")}
     r0 = it.params()[1]
-    ctx.check("R1", it, binds == {f"{r0}.match", f"{r0}.force_True", f"{r0}.force_False"}, "match-func-binding", "the match function is the caller's restriction's match/force_True/force_False", f"match is bound from {sorted(binds)}")
     call = [c for c in A.calls(it.node) if A.unparse(c.func) == "self._internal_match"]
-    ctx.check("R1", it, len(call) == 1 and len(call[0].args) >= 2 and A.unparse(call[0].args[1]) == "match", "match-func-passed", "itermatch hands that function to _internal_match")
+    # the local that carries the match function is whatever is handed to _internal_match as its 2nd argument
+    mname = call[0].args[1].id if len(call) == 1 and len(call[0].args) >= 2 and isinstance(call[0].args[1], ast.Name) and call[0].args[1].id not in it.params() else None
+    binds = {A.unparse(v) for t, v, _ in A.assignments(it.node, mname)} if mname else set()
+    ctx.check("R1", it, binds == {f"{r0}.match", f"{r0}.force_True", f"{r0}.force_False"}, "match-func-binding", "the match function is the caller's restriction's match/force_True/force_False", f"match is bound from {sorted(binds)}")
+    ctx.check("R1", it, mname is not None, "match-func-passed", "itermatch hands that function to _internal_match")
     ctx.floor("R1", 3)
 
     # ---- R2 negation awareness -----------------------------------------------------------
@@ -50,25 +79,62 @@ def run(ctx):
         ctx.check("R2", f, ok, f"lift-skips-negated@{A.unparse(comp.generators[0].iter)[-22:]}", f"`{A.unparse(comp)[:60]}` skips negated wrappers",
                   f"{f.qual} takes `{var}.restriction` of collected package restrictions without looking at `{var}.negate`: And(category==c, not package==foo) is pruned to c/foo only and returns nothing", node=comp)
     # fast path: bail out on inner negation before anything is collected
-    first = fic.node.body[0]
-    if isinstance(first, ast.Expr) and isinstance(first.value, ast.Constant):
-        first = fic.node.body[1]
-    ok = isinstance(first, ast.If) and A.unparse(first.test) == f"self._has_inner_negation({fic.params()[1]})" and all(isinstance(s, (ast.If, ast.Return)) for s in first.body) and any(isinstance(s, ast.Return) for s in ast.walk(first))
+    rparam = fic.params()[1]
+    bail = [s for s in fic.node.body if isinstance(s, ast.If) and A.unparse(s.test) == f"self._has_inner_negation({rparam})"]
+    first = bail[0] if bail else None
+    # "before anything is collected": no statement that does work precedes it at the top level, and every collection call comes later
+    before = [s for s in fic.node.body if first is not None and s.lineno < first.lineno and not _noise(s)]
+    collected = [c for c in A.calls(fic.node) if dotted(c.func) == "collect_package_restrictions"]
+    ok = first is not None and not before and all(c.lineno > first.end_lineno for c in collected) and _always_returns(first.body)
     ctx.check("R2", fic, ok, "fast-path-negation-bailout", "the fast path returns the whole candidate space when anything below the top node is negated",
               "_fast_identify_candidates collects category/package restrictions from under negated nodes and applies them positively", node=first)
     if ok:
         rets = [A.unparse(r.value) for r in ast.walk(first) if isinstance(r, ast.Return)]
         ctx.check("R2", fic, any("self.versions" in r for r in rets) and all("self.versions" in r or "self.categories" in r for r in rets), "bailout-returns-everything", "the bail-out yields every (category, package) of the repository")
     hn = P.func(MOD, "tree._has_inner_negation")
-    txt = A.unparse(hn.node)
-    ctx.check("R2", hn, "restriction.Negate" in txt and "'negate', False" in txt and "boolean.base" in txt and "stack.extend" in txt, "inner-negation-walk", "the negation walk looks at Negate wrappers, .negate flags and descends through boolean nodes")
+    hp = hn.params()[0]
+    walk = M.has(hn.node, f"""
+        $stack = list({hp}) if isinstance({hp}, boolean.base) else []
+        while $stack:
+            $node = $stack.pop()
+            if isinstance($node, restriction.Negate) or getattr($node, 'negate', False):
+                return True
+            if isinstance($node, boolean.base):
+                $stack.extend($node)
+        return False
+    """)
+    ctx.check("R2", hn, walk, "inner-negation-walk", "the negation walk looks at Negate wrappers, .negate flags and descends through boolean nodes")
     # top-level negation handled: exact sets dropped and filters inverted
-    neg_if = [n for n in A.body_walk(fic.node) if isinstance(n, ast.If) and A.unparse(n.test) == "restrict.negate"]
-    ctx.check("R2", fic, bool(neg_if) and "cat_exact = pkg_exact = ()" in A.unparse(neg_if[0]), "top-negate-drops-exact", "a negated top-level node never narrows to the exact category/package sets")
-    negkw = [c for c in A.calls(fic.node) if A.unparse(c.func) in ("self._cat_filter", "self._package_filter") and any(k.arg == "negate" and A.unparse(k.value) == "restrict.negate" for k in c.keywords)]
+    # the four working sets, bound by ROLE: the *_restrict sets receive `.restriction` of the collected wrappers by attribute,
+    # the *_exact sets are the ones paired with them in the loop that moves non-negated exact matches over
+    coll = M.one(fic.node, f"""
+        for $w in collect_package_restrictions({rparam}, ...):
+            if $w.attr == 'category':
+                $cat_restrict.add($w.restriction)
+            elif $w.attr == 'package':
+                $pkg_restrict.add($w.restriction)
+    """)
+    move = M.one(fic.node, """
+        for $e, $s in $$pairs:
+            $l = [$x for $x in $s if $_]
+            $s.difference_update($l)
+            $e.update($y.exact for $y in $l)
+    """)
+    role = {}
+    if coll is not None and move is not None and isinstance(move.env["$pairs"], (ast.Tuple, ast.List)):
+        pairs = {}
+        for el in move.env["$pairs"].elts:
+            if isinstance(el, (ast.Tuple, ast.List)) and len(el.elts) == 2 and all(isinstance(x, ast.Name) for x in el.elts):
+                pairs[el.elts[1].id] = el.elts[0].id
+        if coll["cat_restrict"] in pairs and coll["pkg_restrict"] in pairs and len(pairs) == 2:
+            role = {"cat_restrict": coll["cat_restrict"], "pkg_restrict": coll["pkg_restrict"], "cat_exact": pairs[coll["cat_restrict"]], "pkg_exact": pairs[coll["pkg_restrict"]]}
+    neg_if = [n for n in A.body_walk(fic.node) if isinstance(n, ast.If) and A.unparse(n.test) == f"{rparam}.negate"]
+    emptied = {A.unparse(t) for n in neg_if[:1] for st in n.body if isinstance(st, ast.Assign) and isinstance(st.value, ast.Tuple) and not st.value.elts for t in st.targets}
+    ctx.check("R2", fic, bool(role) and bool(neg_if) and {role["cat_exact"], role["pkg_exact"]} <= emptied, "top-negate-drops-exact", "a negated top-level node never narrows to the exact category/package sets")
+    negkw = [c for c in A.calls(fic.node) if A.unparse(c.func) in ("self._cat_filter", "self._package_filter") and any(k.arg == "negate" and A.unparse(k.value) == f"{rparam}.negate" for k in c.keywords)]
     ctx.check("R2", fic, len(negkw) >= 2, "top-negate-inverts-filters", "category/package filters receive the top-level negate flag")
-    exact = [n for n in A.body_walk(fic.node) if isinstance(n, ast.ListComp) and "StrExactMatch" in A.unparse(n)]
-    ctx.check("R2", fic, bool(exact) and "not x.negate" in A.unparse(exact[0]), "exact-skips-negated-values", "only non-negated exact string matches are turned into exact candidate sets")
+    exact = [n for n in A.body_walk(fic.node) if isinstance(n, ast.ListComp) and any(dotted(c.func) == "isinstance" and len(c.args) == 2 and (dotted(c.args[1]) or "").endswith("StrExactMatch") for c in A.calls(n))]
+    ctx.check("R2", fic, bool(exact) and M.pat("[$x for $x in $_ if isinstance($x, values.StrExactMatch) and (not $x.negate)]").matches(exact[0]) is not None, "exact-skips-negated-values", "only non-negated exact string matches are turned into exact candidate sets")
     ctx.floor("R2", 7)
 
     # ---- R3 each once / shortcuts / sorter placement -----------------------------------------
@@ -84,24 +150,35 @@ def run(ctx):
             par = getattr(st, "_parent", None)
             body = par.body if isinstance(par, (ast.If, ast.For)) else []
             idx = body.index(st) if st in body else -1
-            nxt = body[idx + 1] if 0 <= idx < len(body) - 1 else None
+            # the next statement that does anything (logging lines do not count) leaves the restriction loop
+            rest = [s_ for s_ in body[idx + 1:] if not _noise(s_)] if idx >= 0 else []
+            nxt = rest[0] if rest else None
             ctx.check("R3", f, isinstance(nxt, ast.Break), f"yield-then-break:{q}", f"{q}: after yielding an item the restriction loop is left (each item at most once)",
                       f"{q}: `yield` inside the restriction loop is not followed by `break`: an item matching several restrictions is yielded several times", node=y)
     single = [r for r in A.returns(fic.node) if isinstance(r.value, ast.List) and len(r.value.elts) == 1]
     ctx.require(single, "_fast_identify_candidates: single-candidate shortcut not found")
     for r in single:
         tests = [A.unparse(p.test) for p in A.parents(r) if isinstance(p, ast.If)]
-        j = " ".join(tests)
-        ctx.check("R3", fic, "not pkg_restrict" in j and "not cat_restrict" in j and "len(pkg_exact) == 1" in j and "len(cat_exact) == 1" in j, "single-candidate-guards",
+        conj = {A.unparse(c) for p in A.parents(r) if isinstance(p, ast.If) and _in_body(p, r) for c in _conjuncts(p.test)}
+        need = {f"not {role['pkg_restrict']}", f"not {role['cat_restrict']}", f"len({role['pkg_exact']}) == 1", f"len({role['cat_exact']}) == 1"} if role else None
+        ctx.check("R3", fic, need is not None and need <= conj, "single-candidate-guards",
                   "the one-candidate shortcut requires exactly one exact category and package and NO other category/package restriction",
                   f"the one-candidate shortcut is guarded only by {tests}: with another package restriction pending (an OR alternative) its matches are never examined", node=r)
     gc = P.func(MOD, "tree._internal_gen_candidates")
     sort_calls = [c for c in A.calls(gc.node) if dotted(c.func) == "sorter"]
-    bad = [c for c in sort_calls if "versions" in A.unparse(c.args[0])]
+    def _src(e):
+        """text of a sorter argument, a local name resolved to what it was assigned from"""
+        t = A.unparse(e)
+        if isinstance(e, ast.Name):
+            t += " " + " ".join(A.unparse(v) for _, v, _ in A.assignments(gc.node, e.id))
+        return t
+    bad = [c for c in sort_calls if c.args and "self.versions" in _src(c.args[0])]
     ctx.check("R3", gc, not bad, "sorter-on-packages", "the sorter is never applied to raw version strings",
               f"_internal_gen_candidates applies the sorter to `{A.unparse(bad[0].args[0]) if bad else ''}` (version STRINGS): 1.10 sorts before 1.9, so sorted queries come out in string order", node=bad[0] if bad else None)
     yf = [n for n in A.body_walk(gc.node) if isinstance(n, ast.YieldFrom)]
-    ctx.check("R3", gc, len(yf) == 1 and A.unparse(yf[0].value) == "sorter(pkg_filter(pkgs))", "sorts-filtered-packages", "each candidate's instantiated, filtered packages go through the sorter", f"_internal_gen_candidates yields from `{A.unparse(yf[0].value) if yf else None}`")
+    # the local that holds the instantiated packages is whatever goes through pkg_filter and the sorter into the one `yield from`
+    yfm = M.pat("sorter(pkg_filter($pkgs))").matches(yf[0].value) if len(yf) == 1 else None
+    ctx.check("R3", gc, yfm is not None and M.has(gc.node, "$pkgs = (raw_pkg_cls($cp[0], $cp[1], $v) for $v in self.versions.get($cp, ()))", yfm.env), "sorts-filtered-packages", "each candidate's instantiated, filtered packages go through the sorter", f"_internal_gen_candidates yields from `{A.unparse(yf[0].value) if yf else None}`")
     ctx.check("R3", gc, any(isinstance(n, ast.For) and A.unparse(n.iter) == "sorter(candidates)" for n in A.body_walk(gc.node)), "sorts-candidates", "candidates themselves are visited in sorter order")
     ctx.floor("R3", 7)
 
@@ -111,14 +188,22 @@ def run(ctx):
     r = A.returns(fi.node)
     ctx.check("R4", fi, len(r) == 1 and A.unparse(r[0].value) == "self._filterfunc(self.restrict.match, self.raw_repo.itermatch(restrict, **kwds))", "filter-shape", "filtered.tree.itermatch filters the wrapped repo's matches with its own restriction")
     sel = [n for n in A.body_walk(finit.node) if isinstance(n, ast.If) and A.unparse(n.test) == "sentinel_val"]
-    ok = bool(sel) and A.unparse(sel[0].body[0]) == "self._filterfunc = filter" and A.unparse(sel[0].orelse[0]) == "self._filterfunc = filterfalse"
+    ffs = [A.unparse(v) for t, v, _ in A.assignments(finit.node) if A.unparse(t) == "self._filterfunc"]
+    ok = len(sel) == 1 and sorted(ffs) == ["filter", "filterfalse"] and M.pat("if sentinel_val:\n    self._filterfunc = filter\nelse:\n    self._filterfunc = filterfalse").matches(sel[0]) is not None
     ctx.check("R4", finit, ok, "sentinel-polarity", "sentinel True keeps matches (filter), False keeps non-matches (filterfalse)")
     gi = P.func("pkgcore.repository.filtered", "tree.__getitem__")
-    ctx.check("R4", gi, "self.restrict.match(v) != self.sentinel_val" in A.unparse(gi.node), "getitem-agrees", "__getitem__ rejects what itermatch filters out")
+    gk = gi.params()[1]
+    ctx.check("R4", gi, M.has(gi.node, f"$v = self.raw_repo[{gk}]\nif self.restrict.match($v) != self.sentinel_val:\n    raise KeyError(...)\nreturn $v"), "getitem-agrees", "__getitem__ rejects what itermatch filters out")
     mi = P.func("pkgcore.repository.multiplex", "tree.itermatch")
-    iters = [n for n in A.body_walk(mi.node) if isinstance(n, (ast.GeneratorExp, ast.ListComp)) and "repo.itermatch(restrict, **kwds)" in A.unparse(n)]
-    ctx.check("R4", mi, len(iters) == 2 and all(any(A.unparse(g.iter) == "self.trees" and not g.ifs for g in n.generators) for n in iters), "all-trees", "both the unsorted and the sorted path query every member tree",
-              f"multiplex.tree.itermatch consults {[A.unparse(g.iter) for n in iters for g in n.generators]}")
+    mr = mi.params()[1]
+    iters = []  # (comprehension, name of the member-tree variable queried in it)
+    for n in A.body_walk(mi.node):
+        if isinstance(n, (ast.GeneratorExp, ast.ListComp)):
+            qs = M.find(n, f"$repo.itermatch({mr}, **kwds)")
+            if qs:
+                iters.append((n, {q_["repo"] for q_ in qs}))
+    ctx.check("R4", mi, len(iters) == 2 and all(len(vs) == 1 and any(A.unparse(g.target) in vs and A.unparse(g.iter) == "self.trees" and not g.ifs for g in n.generators) for n, vs in iters), "all-trees", "both the unsorted and the sorted path query every member tree",
+              f"multiplex.tree.itermatch consults {[A.unparse(g.iter) for n, _ in iters for g in n.generators]}")
     ctx.floor("R4", 4)
 
 
